@@ -41,6 +41,7 @@
    are not altered by later reads" (the model's events are immutable values; aliasing of reused Go
    buffers can only be observed on the Go side, which the harness does with its buffer-reuse
    lexer cases). *)
+From Mcap Require ConstsTie LayoutTie. (* regenerated ties to /repo's source that this property's model relies on *)
 From Coq Require Import List NArith ZArith Bool.
 From Coq.Strings Require Import Byte.
 From Mcap Require Import Bytes GoSem Crc32 Records RecordsFacts Writer WriterFactsA WriterFactsB
